@@ -150,7 +150,7 @@ pub enum Shape {
     Concat,
 }
 const SHAPES: [Shape; 4] = [Shape::PairLeft, Shape::PairRight, Shape::List, Shape::Concat];
-const DEPTHS: [usize; 4] = [10, 100, 1000, 5000];
+const DEPTHS: [usize; 5] = [10, 100, 1000, 5000, 50000];
 const DEEP_OPS: [&str; 8] = ["equal-self", "equal-copy", "cast-charlist", "cast-bytelist", "cast-symbol", "length", "clone", "compare"];
 
 fn build_deep<D: Subject>(d: &mut D, shape: Shape, depth: usize) -> Result<usize, String> {
@@ -359,7 +359,13 @@ impl Property for C07 {
         if idx < l.deep {
             let (w, s, d, o) = deep_params(idx);
             cx.eval();
-            let r = if w == 0 { deep_case::<SData>(s, d, o) } else { deep_case::<BData>(s, d, o) };
+            // the case runs on a thread with the default stack size of spawned threads (2 MiB): unbounded recursion
+            // over nested data shows as a stack overflow there, which aborts the worker and is attributed by the supervisor
+            let r = std::thread::Builder::new()
+                .stack_size(2 << 20)
+                .spawn(move || if w == 0 { deep_case::<SData>(s, d, o) } else { deep_case::<BData>(s, d, o) })
+                .map(|h| h.join().unwrap_or_else(|_| Err("deep-case thread panicked".into())))
+                .unwrap_or_else(|e| Err(format!("cannot spawn: {}", e)));
             if let Err(p) = r {
                 cx.violation(&format!("panic-deep[{}]", panic_kind(&p)), &format!("{} | deep {:?} | {}", ["simple", "basic"][w], s, o), json!({"mode": "deep", "idx": idx, "depth": d}));
             }
@@ -428,7 +434,7 @@ impl Property for C07 {
     fn meta(&self, tier: Tier) -> Meta {
         let l = layout(tier);
         Meta {
-            rule: format!("(a) the {} programs of the C01 corpora and every accepted input of the C03/C04 token corpora (K1, K2, K4, K5; lengths up to 5 in the quick tier, up to length 6 in the thorough tier); (b) {} boundary programs: every prefix/suffix operator on, and every binary operator (ranges, casts, concatenation, partial apply, conditionals included) between, 29 boundary literals (i32 limits, 31/32/33/64, huge float, empty and multi-byte text, empty bytes, symbol, symbol and identifier with a multi-byte name, unit, list, keyed list, range, concatenation, lists and concatenations holding text, bytes, symbols and lists), casts to the type of each literal, and index / apply / slice / slice-of-slice families over 6 container kinds x 10 boundary indexes (incl. +-1e300); each run to completion (step cap 2 000; 300 for token-corpus inputs, which include loops that never end) on both implementations under hosts {{none, declining, accepting}} (corpus programs: none and accepting in the quick tier, T4 loops without a host) with a mixed keyed/unkeyed list as input; (c) {} deep-data cases: pairs (left/right nested), lists and concatenations nested 10/100/1 000/10 000 deep built through the data API, then Equal (self, copy), LessThan, casts to CharList/ByteList/Symbol, `.|`, clone_data as single instructions. Verdict: no panic unwinds, no abort, no hang (supervised). Non-trivial: every case; distinct by text / parameters.", l.programs, l.boundary, l.deep),
+            rule: format!("(a) the {} programs of the C01 corpora and every accepted input of the C03/C04 token corpora (K1, K2, K4, K5; lengths up to 5 in the quick tier, up to length 6 in the thorough tier); (b) {} boundary programs: every prefix/suffix operator on, and every binary operator (ranges, casts, concatenation, partial apply, conditionals included) between, 29 boundary literals (i32 limits, 31/32/33/64, huge float, empty and multi-byte text, empty bytes, symbol, symbol and identifier with a multi-byte name, unit, list, keyed list, range, concatenation, lists and concatenations holding text, bytes, symbols and lists), casts to the type of each literal, and index / apply / slice / slice-of-slice families over 6 container kinds x 10 boundary indexes (incl. +-1e300); each run to completion (step cap 2 000; 300 for token-corpus inputs, which include loops that never end) on both implementations under hosts {{none, declining, accepting}} (corpus programs: none and accepting in the quick tier, T4 loops without a host) with a mixed keyed/unkeyed list as input; (c) {} deep-data cases: pairs (left/right nested), lists and concatenations nested 10/100/1 000/5 000/50 000 deep built through the data API, each on a thread with a 2 MiB stack (the default of spawned threads), then Equal (self, copy), LessThan, casts to CharList/ByteList/Symbol, `.|`, clone_data as single instructions. Verdict: no panic unwinds, no abort, no hang (supervised). Non-trivial: every case; distinct by text / parameters.", l.programs, l.boundary, l.deep),
             assumptions: vec![
                 "an Err returned by a step is acceptable; only unwinding, aborting and exceeding the wall budget are violations".into(),
                 "a worker that aborts (stack overflow) or hangs is attributed to the in-flight element by the supervisor and confirmed in a fresh process".into(),
